@@ -66,3 +66,101 @@ Definition ws_skips_layout_refuted_stmt : Prop :=
     let src := pre ++ l ++ rest in
     parse_ws false src (byte_len src) (fuel_for src) nn (byte_len pre) true
     <> Done (Ok (byte_len pre + byte_len l, nn + count_nl l)).
+
+(* ---- lexical round trips --------------------------------------------------- *)
+(* printed forms *)
+Definition is_name (n : str) : bool :=
+  match n with c :: r => name_start c && forallb name_cont r | [] => false end.
+Definition is_ident (n : str) : bool :=
+  match n with c :: r => tok_start c && forallb tok_cont r | [] => false end.
+Definition not_starting (p : N -> bool) (rest : str) : Prop :=
+  match rest with [] => True | c :: _ => p c = false end.
+
+(* a name as printed: the name itself, followed by something that cannot continue it *)
+Definition parse_name_roundtrip_stmt : Prop :=
+  forall pre n rest, is_name n = true -> not_starting name_cont rest ->
+    let src := pre ++ n ++ rest in
+    parse_name src (byte_len pre) = Done (Ok (byte_len pre + byte_len n, n))
+    /\ slice src (byte_len pre) (byte_len pre + byte_len n) = Done n.
+
+(* a token written as a bare identifier *)
+Definition parse_token_bare_roundtrip_stmt : Prop :=
+  forall pre n rest, is_ident n = true -> not_starting tok_cont rest ->
+    let src := pre ++ n ++ rest in
+    parse_token src (byte_len pre)
+    = Done (Ok (byte_len pre + byte_len n, n, (byte_len pre, byte_len pre + byte_len n), false))
+    /\ slice src (byte_len pre) (byte_len pre + byte_len n) = Done n.
+
+(* a token written between quotes q (either kind): any non-empty name without q
+   and without '\n'; the span selects the name, not the quotes *)
+Definition parse_token_quoted_roundtrip_stmt : Prop :=
+  forall pre q n rest,
+    (q = c_sq \/ q = c_dq) -> n <> [] ->
+    forallb (fun c => negb (c =? q)%N && negb (c =? c_nl)%N) n = true ->
+    let src := pre ++ q :: n ++ q :: rest in
+    parse_token src (byte_len pre)
+    = Done (Ok (byte_len pre + byte_len n + 2, n,
+                (byte_len pre + 1, byte_len pre + 1 + byte_len n), true))
+    /\ slice src (byte_len pre + 1) (byte_len pre + 1 + byte_len n) = Done n.
+
+(* %epp strings: v printed between quotes q with every q (and optionally the
+   other quote) escaped by a backslash; v has no newline and no backslash *)
+Inductive escaped (q : N) : str -> str -> Prop :=
+| Esc_nil : escaped q [] []
+| Esc_plain : forall c v b,
+    c <> q -> c <> c_bslash -> is_nl c = false -> escaped q v b -> escaped q (c :: v) (c :: b)
+| Esc_quote : forall c v b,
+    (c = c_sq \/ c = c_dq) -> escaped q v b -> escaped q (c :: v) (c_bslash :: c :: b).
+
+Definition parse_string_roundtrip_stmt : Prop :=
+  forall pre q v body rest,
+    (q = c_sq \/ q = c_dq) -> escaped q v body ->
+    let src := pre ++ q :: body ++ q :: rest in
+    parse_string src (byte_len src) (fuel_for src) (byte_len pre)
+    = Done (Ok (byte_len pre + byte_len body + 2, v)).
+
+(* %expect numbers: a non-empty digit string denoting a value <= usize::MAX *)
+Definition parse_int_roundtrip_stmt : Prop :=
+  forall pre ds rest v,
+    ds <> [] -> forallb is_digit ds = true -> parse_usize ds = Some v ->
+    not_starting is_digit rest ->
+    let src := pre ++ ds ++ rest in
+    parse_int src (byte_len src) (fuel_for src) (byte_len pre)
+    = Done (Ok (byte_len pre + byte_len ds, v))
+    /\ slice src (byte_len pre) (byte_len pre + byte_len ds) = Done ds.
+
+(* Horner value of a digit string, the meaning of [parse_usize] *)
+Fixpoint dec_value (acc : N) (ds : str) : N :=
+  match ds with [] => acc | d :: r => dec_value (acc * 10 + (d - 48))%N r end.
+Definition parse_usize_value_stmt : Prop :=
+  forall ds, ds <> [] -> (dec_value 0 ds <= usize_max)%N -> parse_usize ds = Some (dec_value 0 ds).
+
+(* ---- totality (C12, yacc part) --------------------------------------------- *)
+(* ASTWithValidityInfo::new as mirrored, run with fuel |src| + 1, always returns:
+   it never reaches a Panic site (slice off a boundary / out of range, unwrap,
+   Span::new with end < start, index out of bounds, debug_assert!) and no loop
+   runs out of fuel — for the code as it is and for both proposed repairs *)
+Definition yacc_parse_total_stmt : Prop :=
+  forall (fixed fixed_aspan : bool) (kind : ykind) (src : str),
+    exists r, run_case fixed fixed_aspan kind src = Done r.
+
+(* ---- action spans ----------------------------------------------------------- *)
+(* the span stored with an action selects the action text *)
+Definition action_ok (src : str) (act : option (str * span)) : Prop :=
+  match act with Some (t, (s, e)) => slice src s e = Done t | None => True end.
+
+Definition action_spans_select_for (fixed_aspan : bool) : Prop :=
+  forall fixed kind src a errs w,
+    run_case fixed fixed_aspan kind src = Done (TResult a errs w) ->
+    Forall (fun p => action_ok src (p_action p)) (a_prods a).
+
+(* with the proposed repair: for every source text whatsoever *)
+Definition action_span_fixed_stmt : Prop := action_spans_select_for true.
+
+(* the code as it is: refuted (parser.rs:742) *)
+Definition action_span_refuted_stmt : Prop :=
+  exists fixed kind src,
+    match run_case fixed false kind src with
+    | Done (TResult a _ _) => ~ Forall (fun p => action_ok src (p_action p)) (a_prods a)
+    | _ => False
+    end.
